@@ -190,23 +190,9 @@ fn msm_toy251_terms_0_1() {
     assert!(r1 == e * s);
 }
 
-// @harness name=msm_toy251_terms_2 props=C01,C14 kind=bounded bound="2 terms; all scalars, all points (identity included)" tier=thorough backs="vartime_multiscalar_mul.ensures: result == s1*E1 + s2*E2; no panic" expect=pass
-#[kani::proof]
-#[kani::unwind(12)]
-fn msm_toy251_terms_2() {
-    let (s1, e1, s2, e2) = (any_s(), any_e(), any_s(), any_e());
-    let r = __verif::vartime_multiscalar_mul::<Toy251>(vec![s1, s2], vec![e1, e2]);
-    assert!(r == e1 * s1 + e2 * s2);
-}
-
-// @harness name=msm_toy251_terms_3 props=C01,C14 kind=bounded bound="3 terms; all scalars, all points" tier=thorough backs="vartime_multiscalar_mul.ensures: result == s1*E1 + s2*E2 + s3*E3; no panic" expect=pass
-#[kani::proof]
-#[kani::unwind(12)]
-fn msm_toy251_terms_3() {
-    let (s1, e1, s2, e2, s3, e3) = (any_s(), any_e(), any_s(), any_e(), any_s(), any_e());
-    let r = __verif::vartime_multiscalar_mul::<Toy251>(vec![s1, s2, s3], vec![e1, e2, e3]);
-    assert!(r == e1 * s1 + e2 * s2 + e3 * s3);
-}
+// More than one term is NOT covered: two fully symbolic terms did not finish in 25 min (with `%`-based and with
+// division-free toy arithmetic), nor did "one symbolic term + one term with a scalar from {0, 1, 173, 250}";
+// three terms were not attempted after that.  See README, "What could not be done".
 
 // optional_multiscalar_mul: None for a None element or for unequal lengths (this is what makes the
 // `expect` in vartime_multiscalar_mul fire when the caller violates "equal lengths").
